@@ -25,13 +25,15 @@ Proof.
 Qed.
 
 Lemma wf_type_cases x : wf_ekey x ->
-  (is_table_type (ekey_type x) = true /\ is_meta_type (ekey_type x) = false) \/
-  (is_table_type (ekey_type x) = false /\ is_meta_type (ekey_type x) = true).
+  (is_table_type (ekey_type x) = true /\ is_meta_type (ekey_type x) = false /\ is_other_type (ekey_type x) = false) \/
+  (is_table_type (ekey_type x) = false /\ is_meta_type (ekey_type x) = true /\ is_other_type (ekey_type x) = false) \/
+  (is_table_type (ekey_type x) = false /\ is_meta_type (ekey_type x) = false /\ is_other_type (ekey_type x) = true).
 Proof.
-  destruct x; cbn [wf_ekey ekey_type]; intros H; try (left; split; reflexivity).
-  - destruct H as [H _]. right. split; [|assumption].
-    apply is_meta_type_cases in H. destruct H as [->|[->|[->|[->| ->]]]]; reflexivity.
-  - destruct H as [H _]. left. apply is_coll_type_cases in H. destruct H as [->|[->| ->]]; split; reflexivity.
+  destruct x; cbn [wf_ekey ekey_type]; intros H; try (left; repeat split; reflexivity);
+    try (right; right; repeat split; reflexivity).
+  - destruct H as [H _]. right. left.
+    apply is_meta_type_cases in H. destruct H as [->|[->|[->|[->| ->]]]]; repeat split; reflexivity.
+  - destruct H as [H _]. left. apply is_coll_type_cases in H. destruct H as [->|[->| ->]]; repeat split; reflexivity.
 Qed.
 
 (* ---------- shape of the encodings ---------- *)
@@ -49,20 +51,18 @@ Definition ekey_rest (x : ekey) : bytes :=
       encode_vals [MBytes k; MInt (Z.of_N zset_key_sep); MFloat sc; MInt (Z.of_N zset_score_sep); MBytes m]
   | KBitmap _ k i => encode_vals [MBytes k; MInt (Z.of_N col_start_sep); MInt i]
   | KJson _ rk => encode_vals [MInt (Z.of_N j_sep); MBytes rk]
+  | _ => []
   end.
 
-Lemma encode_ekey_table x : is_meta_type (ekey_type x) = false -> wf_ekey x ->
+Lemma encode_ekey_table x : is_table_type (ekey_type x) = true -> wf_ekey x ->
   encode_ekey x = table_prefix (ekey_type x) (ekey_table x) ++ ekey_rest x.
 Proof.
-  destruct x; cbn [ekey_type wf_ekey encode_ekey ekey_table ekey_rest]; intros Hm Hw.
+  destruct x; cbn [ekey_type wf_ekey encode_ekey ekey_table ekey_rest]; intros Hm Hw;
+    try reflexivity; try (vm_compute in Hm; discriminate).
   - unfold encode_kv_key, pack_redis_key, table_prefix. rewrite N.eqb_refl. cbn [app].
     rewrite <- app_assoc. reflexivity.
-  - destruct Hw as [Hw _]. congruence.
-  - unfold coll_key. reflexivity.
-  - reflexivity.
-  - reflexivity.
-  - reflexivity.
-  - reflexivity.
+  - destruct Hw as [Hw _]. apply is_meta_type_cases in Hw.
+    destruct Hw as [->|[->|[->|[->| ->]]]]; vm_compute in Hm; discriminate.
 Qed.
 
 Lemma encode_ekey_meta ty t rk : encode_ekey (KMeta ty t rk) = ty :: meta_prefix ++ t ++ table_start_sep :: rk.
@@ -130,13 +130,15 @@ Proof.
   intros Hx Hy E.
   assert (Ht : ekey_type x = ekey_type y).
   { destruct (encode_ekey_head x) as [r Hr], (encode_ekey_head y) as [r' Hr']. congruence. }
-  destruct (wf_type_cases x Hx) as [[Tx Mx]|[Tx Mx]], (wf_type_cases y Hy) as [[Ty My]|[Ty My]]; try congruence.
+  destruct (wf_type_cases x Hx) as [(Tx & Mx & Ox)|[(Tx & Mx & Ox)|(Tx & Mx & Ox)]],
+           (wf_type_cases y Hy) as [(Ty & My & Oy)|[(Ty & My & Oy)|(Ty & My & Oy)]]; try congruence.
   - (* both table-prefixed *)
-    rewrite (encode_ekey_table x Mx Hx), (encode_ekey_table y My Hy), <- Ht in E.
-    assert (Nx : no_sep (ekey_table x)) by (destruct x; cbn in Hx |- *; tauto).
-    assert (Ny : no_sep (ekey_table y)) by (destruct y; cbn in Hy |- *; tauto).
+    rewrite (encode_ekey_table x Tx Hx), (encode_ekey_table y Ty Hy), <- Ht in E.
+    assert (Nx : no_sep (ekey_table x)) by (destruct x; cbn in Hx |- *; try tauto; vm_compute in Tx; discriminate).
+    assert (Ny : no_sep (ekey_table y)) by (destruct y; cbn in Hy |- *; try tauto; vm_compute in Ty; discriminate).
     apply table_prefix_app_inj in E; [|assumption|assumption]. destruct E as [Etab Erest].
     destruct x, y; cbn [ekey_type ekey_table ekey_rest wf_ekey ekey_norm] in *; subst;
+      try (vm_compute in Tx; discriminate); try (vm_compute in Ty; discriminate);
       try (type_clash Ht); try (type_clash Mx); try (type_clash My).
     + reflexivity.
     + destruct Hx as (_ & _ & Lx), Hy as (_ & _ & Ly).
@@ -155,8 +157,28 @@ Proof.
       cbn [map mval_norm] in Erest. injection Erest as ->. reflexivity.
   - (* both meta keys *)
     destruct x, y; cbn [ekey_type wf_ekey] in *; try discriminate; try (destruct Hx as [Hx _]; congruence);
-      try (destruct Hy as [Hy _]; congruence); try type_clash0.
+      try (destruct Hy as [Hy _]; congruence); try type_clash0;
+      try (vm_compute in Mx; discriminate); try (vm_compute in My; discriminate).
     subst. rewrite !encode_ekey_meta in E. injection E as E.
     destruct Hx as [_ Nx], Hy as [_ Ny]. apply split_unique in E; [|assumption|assumption].
     destruct E as [-> ->]. reflexivity.
+  - (* table meta / index meta / expire keys: fixed layouts *)
+    destruct x, y; cbn [ekey_type wf_ekey] in *; try (vm_compute in Ht; discriminate);
+      try (vm_compute in Ox; discriminate); try (vm_compute in Oy; discriminate);
+      try (exfalso; destruct Hx as [Hx _]; apply is_meta_type_cases in Hx;
+           destruct Hx as [Hx|[Hx|[Hx|[Hx|Hx]]]]; subst; vm_compute in Ox; discriminate);
+      try (exfalso; destruct Hx as [Hx _]; apply is_coll_type_cases in Hx;
+           destruct Hx as [Hx|[Hx|Hx]]; subst; vm_compute in Ox; discriminate);
+      try (exfalso; destruct Hy as [Hy _]; apply is_meta_type_cases in Hy;
+           destruct Hy as [Hy|[Hy|[Hy|[Hy|Hy]]]]; subst; vm_compute in Oy; discriminate);
+      try (exfalso; destruct Hy as [Hy _]; apply is_coll_type_cases in Hy;
+           destruct Hy as [Hy|[Hy|Hy]]; subst; vm_compute in Oy; discriminate).
+    + cbn [encode_ekey] in E. unfold encode_table_meta_key in E. injection E as ->. reflexivity.
+    + cbn [encode_ekey] in E. unfold encode_table_index_meta_key in E. injection E as -> ->. reflexivity.
+    + cbn [encode_ekey] in E. unfold exp_encode_time_key in E.
+      remember (be 8 (u64_of_z when)) as b1 eqn:E1. remember (be 8 (u64_of_z when0)) as b2 eqn:E2.
+      injection E as E.
+      apply app_eq_len in E; [|subst; now rewrite !be_length]. destruct E as [Ew E]. injection E as -> ->.
+      subst b1 b2. apply be8_u64_inj in Ew; [|assumption|assumption]. now subst.
+    + cbn [encode_ekey] in E. unfold exp_encode_meta_key in E. injection E as -> ->. reflexivity.
 Qed.
